@@ -320,7 +320,11 @@ Definition leaflist_check (tag : string) (l : list elem) : res unit :=
                else if negb (isLeaf e) then Err "leaf list element has children" else Ok tt)
             l (Ok tt).
 
-Definition leaflist_changes (old new : elem) (p : path) : res (list op) :=
+(** the list-diff function is a parameter of the tree diff, so that the theorems about the tree
+    walk hold for every differ that returns valid scripts; the code uses MyersDiff *)
+Definition differ := (elem -> elem -> bool) -> list elem -> list elem -> res (list mop).
+
+Definition leaflist_changes_with (diff : differ) (old new : elem) (p : path) : res (list op) :=
   let oldE := e_children old in let newE := e_children new in
   match oldE, newE with
   | [], [] => Ok []
@@ -328,9 +332,11 @@ Definition leaflist_changes (old new : elem) (p : path) : res (list op) :=
     let tag := match oldE with x :: _ => e_tag x | [] => match newE with y :: _ => e_tag y | [] => "" end end in
     do _ <- leaflist_check tag oldE;
     do _ <- leaflist_check tag newE;
-    do s <- myers equalLeafs oldE newE;
+    do s <- diff equalLeafs oldE newE;
     leaflist_ops p oldE newE s 0 0
   end.
+
+Definition leaflist_changes : elem -> elem -> path -> res (list op) := leaflist_changes_with (@myers elem).
 
 (* ------------------------------------------------------------------------------------------ *)
 (** * addElemChanges *)
@@ -400,7 +406,7 @@ Fixpoint children_loop (rec : elem -> elem -> path -> res (list op)) (s : list m
       do rest <- children_loop rec s' oc nc p st; Ok (kops ++ rest)
   end.
 
-Fixpoint elem_ops (fuel : nat) (old new : elem) (p : path) : res (list op) :=
+Fixpoint elem_ops_with (diff : differ) (fuel : nat) (old new : elem) (p : path) : res (list op) :=
   match fuel with
   | O => Err "fuel"
   | S fuel' =>
@@ -408,14 +414,17 @@ Fixpoint elem_ops (fuel : nat) (old new : elem) (p : path) : res (list op) :=
     else
       do _ <- checkMandatoryIdAttribute old;
       do _ <- checkMandatoryIdAttribute new;
-      if seqb (e_tag old) "SegmentTimeline" then leaflist_changes old new p
+      if seqb (e_tag old) "SegmentTimeline" then leaflist_changes_with diff old new p
       else if isLeaf old && isLeaf new then Ok (leaf_changes old new p)
       else
         let aops := attr_ops p (e_attrs old) (e_attrs new) in
-        do s <- myers sameElements (e_children old) (e_children new);
-        do cops <- children_loop (elem_ops fuel') s (e_children old) (e_children new) p (mkES 0 0 None []);
+        do s <- diff sameElements (e_children old) (e_children new);
+        do cops <- children_loop (elem_ops_with diff fuel') s (e_children old) (e_children new) p (mkES 0 0 None []);
         Ok (aops ++ cops)
   end.
+
+(** addElemChanges as in the code: the differ is MyersDiff *)
+Definition elem_ops : nat -> elem -> elem -> path -> res (list op) := elem_ops_with (@myers elem).
 
 Fixpoint depth (e : elem) : nat :=
   match e with Elem _ _ _ cs => S (fold_right (fun c m => Nat.max (depth c) m) O cs) end.
